@@ -21,6 +21,14 @@ import (
 
 func init() { Registry["C12"] = c12 }
 
+// dynType names the dynamic type held by an interface-typed field ("<nil>" when it holds nothing).
+func dynType(v reflect.Value) string {
+	if !v.IsValid() || ((v.Kind() == reflect.Interface || v.Kind() == reflect.Pointer) && v.IsNil()) {
+		return "<nil>"
+	}
+	return fmt.Sprint(v.Elem().Type())
+}
+
 type tableCtx struct {
 	tb      *schema.Table
 	owner   *schema.Type
@@ -108,7 +116,7 @@ func c12(e *Env) {
 				}
 				body := reflect.ValueOf(d).Elem().FieldByName(tc.uf.Name)
 				if body.IsNil() || body.Elem().Type() != wantT {
-					r.Violate(fmt.Sprintf("C12/decoder-built-wrong-type/%s/%v", tb.QName, en.Key), "C12/decoder-built-wrong-type/"+tb.QName, det(map[string]any{"got": fmt.Sprint(body.Elem().Type())}))
+					r.Violate(fmt.Sprintf("C12/decoder-built-wrong-type/%s/%v", tb.QName, en.Key), "C12/decoder-built-wrong-type/"+tb.QName, det(map[string]any{"got": dynType(body)}))
 					break
 				}
 				rm, _, _, _ := e.C.Decode(owner, img, false) // reference reading of the same image (materialises nested parts of a zero body)
@@ -145,7 +153,7 @@ func c12(e *Env) {
 					case p != nil || derr != nil:
 						r.Violate(fmt.Sprintf("C12/reused-receiver-rejects-registered-key/%s", tb.QName), "C12/reused-receiver/"+tb.QName, det(map[string]any{"second_key": en2.Key, "error": fmt.Sprint(derr), "panic": fmt.Sprint(p)}))
 					case body.IsNil() || body.Elem().Type() != want2:
-						r.Violate(fmt.Sprintf("C12/reused-receiver-keeps-stale-type/%s", tb.QName), "C12/reused-receiver/"+tb.QName, det(map[string]any{"second_key": en2.Key, "pinned_type_for_second_key": bt2.QName, "got": fmt.Sprint(body.Elem().Type())}))
+						r.Violate(fmt.Sprintf("C12/reused-receiver-keeps-stale-type/%s", tb.QName), "C12/reused-receiver/"+tb.QName, det(map[string]any{"second_key": en2.Key, "pinned_type_for_second_key": bt2.QName, "got": dynType(body)}))
 					case val.Equal(rm, d) != "" || buf.Len() != 0:
 						r.Violate(fmt.Sprintf("C12/reused-receiver-round-trip/%s", tb.QName), "C12/reused-receiver/"+tb.QName, det(map[string]any{"second_key": en2.Key, "first_difference": val.Equal(rm, d), "left": buf.Len()}))
 					default:
@@ -292,7 +300,7 @@ func c12(e *Env) {
 		if p != nil {
 			r.Violate("C12/encode-unregistered-panic/"+tb.QName, "C12/encode-unregistered-panic/"+tb.QName, map[string]any{"type": owner.QName, "key": fmtKey(key), "panic": p.Value})
 		} else if tc.uf.Fill && (eerr == nil || !fv.IsNil()) {
-			r.Violate("C12/encoder-fills-unregistered-key/"+tb.QName, "C12/encoder-fills-unregistered-key/"+tb.QName, map[string]any{"type": owner.QName, "table": tb.QName, "key": fmtKey(key), "filled_with": fmt.Sprint(fv.Elem().Type())})
+			r.Violate("C12/encoder-fills-unregistered-key/"+tb.QName, "C12/encoder-fills-unregistered-key/"+tb.QName, map[string]any{"type": owner.QName, "table": tb.QName, "key": fmtKey(key), "filled_with": dynType(fv)})
 		} else if !tc.uf.Fill && (eerr != nil || !fv.IsNil()) {
 			r.Violate("C12/non-filling-frame-guessed-a-body/"+tb.QName, "C12/non-filling-frame-guessed-a-body/"+tb.QName, map[string]any{"type": owner.QName, "key": fmtKey(key), "error": fmt.Sprint(eerr)})
 		} else {
